@@ -13,7 +13,8 @@ package main
 //            with EIO after half of the file), vanish-open (OpenFile -> ENOENT),
 //            vanish-stat (lstat -> ENOENT), vanish-late (MakeReadable ->
 //            ENOENT), type-change (regular at lstat, not regular after open)
-//   dir    : open-eacces, readdir (Readdirnames fails), vanish-open,
+//   dir    : open-eacces, readdir (Readdirnames fails), readdir-partial (it returns
+//            half of the names together with EIO, as os.File does), vanish-open,
 //            vanish-stat, type-change
 //   symlink: vanish-open, vanish-stat
 // Space: all assignments with 0, 1 or 2 faulted items (401) x mode
@@ -34,7 +35,7 @@ package main
 //   - runBackup returns nil or ErrInvalidSourceData, never another error, and a
 //     snapshot is saved in every case;
 //   - it returns ErrInvalidSourceData  <=>  some reached item has an effective
-//     non-vanish fault (open-eacces, read-mid, readdir, type-change);
+//     non-vanish fault (open-eacces, read-mid, readdir, readdir-partial, type-change);
 //     vanish-open / vanish-stat never change the status.  vanish-late (the file
 //     is still there at lstat but gone at open) is left open: the statement's
 //     "between directory listing and opening" and the code comments ("ignore if
@@ -198,6 +199,15 @@ func (f *verifC55File) Readdirnames(n int) ([]string, error) {
 	if f.kind == "readdir" {
 		return nil, verifC55Err("readdirent", f.name, syscall.EIO)
 	}
+	if f.kind == "readdir-partial" {
+		// the listing breaks off midway: os.File.Readdirnames returns the names read so far AND the error
+		names, err := f.File.Readdirnames(n)
+		if err != nil {
+			return names, err
+		}
+		sort.Strings(names)
+		return names[:(len(names)+1)/2], verifC55Err("readdirent", f.name, syscall.EIO)
+	}
 	return f.File.Readdirnames(n)
 }
 
@@ -237,7 +247,7 @@ var verifC55Items = []verifC55Item{
 
 var verifC55Faults = map[byte][]string{
 	'f': {"open-eacces", "read-mid", "vanish-open", "vanish-stat", "vanish-late", "type-change"},
-	'd': {"open-eacces", "readdir", "vanish-open", "vanish-stat", "type-change"},
+	'd': {"open-eacces", "readdir", "readdir-partial", "vanish-open", "vanish-stat", "type-change"},
 	'l': {"vanish-open", "vanish-stat"},
 }
 
@@ -491,7 +501,7 @@ func TestVerif_C55(t *testing.T) {
 	}
 
 	// quick tier: pairs only over a representative subset of the fault kinds
-	quickPair := map[string]bool{"open-eacces": true, "read-mid": true, "vanish-stat": true, "readdir": true, "vanish-open": true}
+	quickPair := map[string]bool{"open-eacces": true, "read-mid": true, "vanish-stat": true, "readdir": true, "readdir-partial": true, "vanish-open": true}
 	for _, a := range assignments {
 		for _, mode := range []string{"full", "parent"} {
 			if !r.Thorough() && len(a) > 1 {
